@@ -17,7 +17,7 @@ from .. import evidence, tlc
 from ..common import MachineryError, Timer, guarded, log, pmap, seed, workdir
 from ..edits import DECOY_VARIANTS, MARKER_VARIANTS, Doc
 from ..findings import Reporter
-from ..langs import LANGS, analyse, corpus_files, lexer_for
+from ..langs import LANGS, analyse, corpus_files, harvested_texts, lexer_for
 from ..tlaval import parse, read_dump
 from .c04 import accept, canonical_texts, meas_json
 
@@ -147,6 +147,9 @@ def run(tier: str) -> int:
     corpus = corpus_files()
     for lang, path, text in corpus:
         jobs.append((lang, text, rng.sample(scripts, min(b["scripts_per_corpus"], len(scripts))), b["slots"], f"corpus/{path.parent.name}/{path.name}", rng.randrange(1 << 30)))
+    harvested = harvested_texts()
+    for lang, origin, text in harvested:
+        jobs.append((lang, text, rng.sample(scripts, min(b["scripts_per_corpus"], len(scripts))), b["slots"], origin, rng.randrange(1 << 30)))
     res = pmap(run_text, jobs, timeout=900, chunk=1)
     events, unstable, unbound, skipped_base = [], 0, 0, []
     for job, r in zip(jobs, res):
@@ -173,7 +176,7 @@ def run(tier: str) -> int:
             "states": m.distinct + pm.distinct, "transitions": m.transitions + pm.transitions, "traces_validated_against_impl": len(events), "exhaustive": False,
             "samples": [{"language": e["lang"], "origin": e["origin"], "script": e["_concrete"], "marked": e["marked"]} for e in events[:: max(1, len(events) // 3)][:3]] or [{"note": "no event"}],
             "bounds": {"function_slots": b["slots"], "marker_variants": MARKER_VARIANTS, "decoy_variants": DECOY_VARIANTS, "max_simultaneous": b["edits"], "scripts_enumerated": len(scripts),
-                       "canonical_texts": len(canon), "corpus_files": len(corpus)},
+                       "canonical_texts": len(canon), "corpus_files": len(corpus), "texts_harvested_from_repository_tests": len(harvested)},
             "events_with_marked_function": n_mark,
             "skipped": {"lexer_unstable": unstable, "unbound_slots_or_lines": unbound, "base_analysis_failed": skipped_base},
             "model": {"module": "Edits.tla", "actions": m.coverage},
